@@ -8,6 +8,8 @@ var OnsKinds = []string{"DOM_CREATE", "DOM_CREATE", "DOM_CREATE_SUB", "DOM_UPDAT
 var DelegKinds = []string{"DELEGATE", "DELEGATE", "UNDELEGATE", "UNDELEGATE", "DELEG_WITHDRAW", "DELEG_WITHDRAW", "DELEG_REINVEST", "SEND", "SENDPOOL"}
 var StakeKinds = []string{"STAKE", "STAKE", "UNSTAKE", "UNSTAKE", "UNSTAKE", "WITHDRAW", "WITHDRAW", "SEND"}
 
+var reqNames = []string{"r1", "r2", "r3", "r4"}
+var AllegKinds = []string{"ALLEGATION", "ALLEGATION", "ALLEGATION_VOTE", "ALLEGATION_VOTE", "ALLEGATION_VOTE", "ALLEGATION_VOTE", "RELEASE", "STAKE", "UNSTAKE", "WITHDRAW", "SEND"}
 var propNames = []string{"p1", "p2", "p3"}
 var domNames = []string{"alpha.ol", "beta.ol", "gamma.ol"}
 var subNames = []string{"x.alpha.ol", "y.alpha.ol", "x.beta.ol"}
@@ -68,6 +70,20 @@ func (g *Gen) txExt(kind string, hostile bool) STx {
 			by = g.pick(g.accts)
 		}
 		t.A = A{"id": g.pick(propNames), "by": by}
+	case "ALLEGATION":
+		by := g.pick(g.vals)
+		if g.R.Intn(6) == 0 {
+			by = g.pick(g.accts) // an outsider tries
+		}
+		t.A = A{"id": g.pick(reqNames), "by": by, "accused": g.pick(g.vals), "h": g.curH - int64(g.R.Intn(2))}
+	case "ALLEGATION_VOTE":
+		by := g.pick(g.vals)
+		if g.R.Intn(8) == 0 {
+			by = g.pick(g.accts)
+		}
+		t.A = A{"id": g.pick(reqNames), "by": by, "choice": []int{1, 1, 1, 2, 2, 0, 3}[g.R.Intn(7)]}
+	case "RELEASE":
+		t.A = A{"v": g.pick(g.vals)}
 	case "DOM_CREATE":
 		o := who()
 		t.A = A{"owner": o, "benef": who(), "name": g.pick(domNames), "uri": "http://example.org", "amt": g.amount(int(g.G.Ons.Base), int(g.G.Ons.Base)+200, hostile)}
@@ -110,6 +126,16 @@ func familyExt(family, id string, g *Gen, blocks, maxTx int) *Scenario {
 	case "deleg":
 		g.Hostile = 0.2
 		return g.Mixed(id, blocks, maxTx+2, DelegKinds)
+	case "alleg":
+		g.Hostile = 0.1
+		sc := g.Mixed(id, blocks, maxTx+2, AllegKinds)
+		for i := range sc.Blocks {
+			// release times are measured in days: let some blocks be a month apart
+			if g.R.Intn(6) == 0 {
+				sc.Blocks[i].DT = int64(g.rng(20, 40)) * 86400
+			}
+		}
+		return sc
 	case "valset":
 		// staking activity, then a quiet tail (transfers only) so that the active set can converge
 		g.Hostile = 0.1
@@ -147,6 +173,8 @@ func familyKindsExt(family string) []string {
 		return DelegKinds
 	case "valset", "exodus":
 		return StakeKinds
+	case "alleg":
+		return AllegKinds
 	case "stake":
 		return StakeKinds
 	case "gov":
